@@ -74,7 +74,7 @@ PROPS["C09"] = dict(
     technique="exhaustive enumeration of key sizes/curves x algorithms x {generate, verify} x providers on the real code",
     level_text=("every oct length 1-160 x HS256/384/512, every pool RSA size (512...4096 incl. 2047/2048/2056, e=3, 33-bit e, RSA-PSS) "
                 "x RS*/PS*, every curve x every ES*, Ed25519/Ed448/X25519 x EdDSA, plus every cross-family pair, for generate and "
-                "for verify of a token made by the reference with the weak key itself; both providers"),
+                "for verify of a token made by the reference with the weak key itself; both providers; oct keys of every length are also presented with k padded, over-padded and followed by = plus further text (the floor is judged on the bytes the key really has)"),
     level_note="the verify token is signed by ref_crypto with the same weak key, so a loosened floor shows up as an acceptance",
     rule=("one cell per (key, algorithm); each cell runs generate and verify; non-trivial = a key at/above the floor that generated "
           "a token which the reference verifies, or whose reference-signed token the library accepts; distinct by cell descriptor"),
@@ -115,7 +115,7 @@ PROPS["C19"] = dict(
                 "signature kinds; the verdict must equal that of the same checker without a callback; vetoing programs (return 1, -1, "
                 "2, 256, INT_MIN) of length <= 2 (thorough <= 3) over 20 operations -- the 17 plus three edits of config->key/alg, "
                 "admissible ones included -- must always reject; accepting programs that first select the key the baseline has are "
-                "compared with the keyed baseline"),
+                "compared with the keyed baseline; payloads include null and wrongly typed exp/nbf/iss/sub/aud"),
     level_note="differential oracle with no expected values: program vs no callback on identically configured fresh checkers",
     rule=("states = callback programs; transitions = (program, configuration, token) cells each executing two real verifications; "
           "a case is non-trivial when the callback actually ran (token parsed); distinct by descriptor"),
@@ -154,7 +154,7 @@ PROPS["C13"] = dict(
                 "clock advance) for four checker configurations, and of depth 5 / 6 over 13 builder operations (setkey good / "
                 "fails-at-signing / none / public, callbacks failing / mutating / none, generate, error_clear, clock, claim set/del); "
                 "after every verify/generate the result is compared with a freshly created, identically configured object at the "
-                "same clock.  States are deliberately not merged: merging by observable state would hide hidden state"),
+                "same clock.  States are deliberately not merged: merging by observable state would hide hidden state; one checker configuration carries a callback that edits the token it is handed (headers and claims)"),
     level_note="the model is only the net configuration (last successful setkey/setcb/claim); every history is an implementation trace",
     rule=("states = histories executed (no merging); transitions = verify/generate steps compared with a fresh object; non-trivial = "
           "every executed history (each contains at least one compared step or is a prefix-closed member)"),
@@ -230,7 +230,7 @@ PROPS["C08"] = dict(
                 "foreign member); thorough adds the full product for six representative keys.  The PEM the library hands out is "
                 "re-parsed by libcrypto and n,e,d,p,q,dp,dq,qi / group,x,y,d / raw OKP keys are compared as integers with the "
                 "harness's own base64url+BIGNUM reading of the JWK; metadata is compared with what the JWK states; foreign members "
-                "must leave PEM and metadata unchanged"),
+                "must leave PEM and metadata unchanged; every pool key is also imported right after each of 8 defective keys (separate set alive or freed, same JWKS), and oct k is also written with = padding (no import demand, but bytes and bits must match what precedes the padding)"),
     level_note="the pool is fixed and committed (corner shapes chosen on purpose); random regeneration would be sampling",
     rule=("evaluations = import calls; non-trivial = distinct JWK texts imported without error and compared; zero-padded and "
           "minimal-length integer encodings are named by the quantifier and must import as well"),
@@ -313,7 +313,7 @@ PROPS["C12"] = dict(
                 "both providers; byte-identical output for HS*, RS*, EdDSA; every C01 mutant the reference calls invalid must be "
                 "rejected by both providers; every depth-3 history over the d=1 edit neighbourhood of the provider names "
                 "(deletions, case flips, substitutions, insertions) and ids -2..12 against the model 'changes only on an exact "
-                "compiled-in name or id'; every JWT_CRYPTO value of the quantifier by re-executing the harness with the variable set"),
+                "compiled-in name or id'; every JWT_CRYPTO value of the quantifier by re-executing the harness with the variable set; key rotation with certain address reuse (5 algorithm families x 3 key sequences x 8 sign/verify/load provider triples, every round freeing its keyring, builder and checker before the next)"),
     level_note="ES256K/secp256k1 are OpenSSL-only and excluded, as the statement scopes",
     rule=("evaluations = verifications; switching: states = 2 providers, transitions = set_crypto_ops calls compared with the model; "
           "non-trivial = cases that executed a cross-provider comparison"),
@@ -334,7 +334,7 @@ PROPS["C05"] = dict(
                 "reference must find the signature valid and of RFC 7518 width, and the header and claims a checker callback reads "
                 "must be json_equal to the builder input plus alg/typ/iat/nbf/exp.  With libcrypto's RNG replaced by a counter DRBG, "
                 "2 000 (quick) / 20 000 (thorough) ECDSA signatures per curve and provider are generated and classified by the "
-                "number of leading zero bytes of r and s; every signature with a short r or s is verified under both providers"),
+                "number of leading zero bytes of r and s; every signature with a short r or s is verified under both providers; key rotation with certain address reuse: every round's token is made with, and accepted under, that round's key"),
     level_note="the r/s length classes, not the nonces, are what is covered; classes reached are reported as counters (GnuTLS's RNG cannot be replaced)",
     rule=("evaluations = tokens generated + verifications; non-trivial = cases (pair, provider pair, chunk of trees); "
           "roundtrips_content_equal counts full content comparisons that passed"),
@@ -378,7 +378,7 @@ PROPS["C18"] = dict(
                 "and jansson, every OPENSSL_malloc/free call libjwt itself makes and every time() call (about 110 points per thread); every schedule with at most 1 preemption (quick) / "
                 "2 preemptions (thorough, all four algorithms with 2 threads) is executed and each thread's token and verdicts must equal its "
                 "sequential run.  Because the scheduler's hand-offs are happens-before edges, data races are looked for "
-                "separately: the same bodies free-running on 8 threads under ThreadSanitizer"),
+                "separately: the same bodies free-running on 8 threads under ThreadSanitizer; mixed runs give the two threads different algorithms and keys (HS256+EdDSA, EdDSA+ES256, RS256+HS256)"),
     level_note="scheduling points sit at allocator and clock seams only: a static touched strictly between two adjacent points is visible to the TSan pass only; weak-memory effects are not modelled",
     rule=("states = schedules executed (each a complete execution of the real code); transitions = scheduling decisions taken; "
           "evaluations = executions compared with the sequential results; schedules_with_real_alternation counts those in which "
@@ -403,7 +403,7 @@ PROPS["C20"] = dict(
                 "integers up to +-2^63 incl. hex/octal forms, also as a future exp and a past nbf; 9 boolean spellings; 7 strings): "
                 "the payload must carry strtol()'s value and jwt-verify must accept; key2jwk -> jwk2key for every key of the pool in private and public form (leading-zero EC "
                 "keys included) and oct files of 32-512 bytes, comparing the JWK member by member with the harness's own JWK of "
-                "the same PEM (RFC 7518 fixed-width EC members) and the PEM written back with the original"),
+                "the same PEM (RFC 7518 fixed-width EC members) and the PEM written back with the original; key2jwk is run on every ordered pair (thorough: triple) of key-file kinds (RSA/EC/OKP private and public PEM, raw) and every position must yield what the file yields alone"),
     level_note="exit status 0 <=> every token verified is judged against tokens whose validity is known by construction and confirmed one by one",
     rule=("evaluations = tool invocations; cases = one composition family / one spelling combination / one key; non-trivial = cases "
           "whose round trip completed and was compared"),
